@@ -258,7 +258,13 @@ pub fn run_plans(rep: &mut Report, plans: Vec<Plan>) {
             };
             rep.violation(
                 key,
-                format!("scenario {} (cache config {}), schedule {:?}: {msg}", p.scn, p.cache, choices),
+                format!(
+                    "scenario {} (cache config {}), schedule with {} choice points, deviations from the default at {:?}: {msg}",
+                    p.scn,
+                    p.cache,
+                    choices.len(),
+                    choices.iter().enumerate().filter(|(_, c)| **c != 0).map(|(i, c)| (i, *c)).collect::<Vec<_>>()
+                ),
                 json!({"engine": "schedx", "scenario": p.scn, "cache": p.cache, "choices": choices, "reduced": p.reduced}),
             );
         }
